@@ -61,21 +61,28 @@ Definition norm_stab (Y : list (core T)) : T * Z :=
 
 (* ---- act_two.py: accuracy(Y1, Y2) ----
      z1, p1 = norm(sub(Y1, Y2), use_stab=True);  z2, p2 = norm(Y2, use_stab=True)
+     if z1 == 0. and abs(z2) >= 1.E-100: return 0.        (since commit 0f9009d: a vanishing difference is distance 0;
+                                                           before it the frozen exponent p1 of a zero product decided)
      if p1 - p2 > 500: return 1.E+299
      if p1 - p2 < -500: return 0.
      c = 2.**(p1 - p2)
      if isinf(c) or isinf(z1) or isinf(z2) or abs(z2) < 1.E-100: return -1
      return c * z1 / z2
-   with h_i = 2 p_i:  p1 - p2 > 500  <->  h1 - h2 > 1000;  2.**(h/2) = pow2h h *)
+   with h_i = 2 p_i:  p1 - p2 > 500  <->  h1 - h2 > 1000;  2.**(h/2) = pow2h h.
+   [accuracy_tail] is everything after the first test (the whole function before 0f9009d).
+   [abs(z2) >= tiny] is written [oleb tiny (oabs z2)], so that a NaN z2 falls through as in Python. *)
 Definition pow2h (h : Z) : T :=
   if Z.even h then opow2 K (h / 2) else opow2 K ((h - 1) / 2) * osqrt K (1 + 1).
-Definition accuracy_of (big tiny : T) (z1 : T) (h1 : Z) (z2 : T) (h2 : Z) : T :=
+Definition accuracy_tail (big tiny : T) (z1 : T) (h1 : Z) (z2 : T) (h2 : Z) : T :=
   let h := (h1 - h2)%Z in
   if (h >? 1000)%Z then big
   else if (h <? -1000)%Z then 0
   else let c := pow2h h in
     if isinf c || isinf z1 || isinf z2 || oltb K (oabs K z2) tiny then oopp K 1
     else c * z1 / z2.
+Definition accuracy_of (big tiny : T) (z1 : T) (h1 : Z) (z2 : T) (h2 : Z) : T :=
+  if oeqb K z1 0 && oleb K tiny (oabs K z2) then 0
+  else accuracy_tail big tiny z1 h1 z2 h2.
 Definition accuracy (big tiny : T) (Y1 Y2 : list (core T)) : T :=
   let zp1 := norm_stab (sub K Y1 Y2) in
   let zp2 := norm_stab Y2 in
